@@ -168,6 +168,7 @@ func cmdCheck(args []string) int {
 		timeout = 60
 		confirm = true
 	}
+	currentProp = id
 	// functions under contract for this property
 	var targets []string
 	for _, k := range sp.Order {
@@ -584,6 +585,9 @@ func cmdCheck(args []string) int {
 		id, *tier, len(funcs), nObl, nDis, nKnown, nViol, nUndecided, queryDigest, time.Since(t0).Seconds())
 	return exit
 }
+
+// currentProp: the property whose check is running ("" in dev commands: every clause is generated)
+var currentProp string
 
 var standingAssumptions = []string{
 	"amd64: int is 64 bit; len/cap of any slice, string or map <= 2^48",
